@@ -73,9 +73,23 @@ def coq_regen(sections=None):
 
 
 def coq_makefile():
-    mk = os.path.join(COQ, "Makefile")
+    """_CoqProject = fixed header + every coq/files.d/*.list (one list per property, so that
+    parallel work never edits a shared file); Makefile regenerated when the list changes."""
+    import glob
+    hdr = ["-Q . V", "-arg -w -arg -notation-overridden,-deprecated-hint-without-locality,-deprecated-syntactic-definition"]
+    files = []
+    for lst in sorted(glob.glob(os.path.join(COQ, "files.d", "*.list"))):
+        for ln in open(lst):
+            ln = ln.strip()
+            if ln and not ln.startswith("#") and ln not in files:
+                files.append(ln)
+    text = "\n".join(hdr + files) + "\n"
     cp = os.path.join(COQ, "_CoqProject")
-    if not os.path.exists(mk) or os.path.getmtime(mk) < os.path.getmtime(cp):
+    mk = os.path.join(COQ, "Makefile")
+    old = open(cp).read() if os.path.exists(cp) else None
+    if old != text:
+        open(cp, "w").write(text)
+    if old != text or not os.path.exists(mk):
         sh("coq_makefile -f _CoqProject -o Makefile", cwd=COQ)
 
 
